@@ -21,7 +21,7 @@ theorem search_not_refused (r : Request) (h : r.isSearch = true) : mustReject r 
 theorem withOpts_not_search (r : Request) (o : SearchOpts) (h : r.isSearch = false) : r.withOpts o = r := by
   cases r <;> simp [Request.isSearch] at h <;> simp [Request.withOpts]
 
-/-- what one operation call does, in one formula -/
+/-- what one accepted operation call does, in one formula -/
 def issued (s : HState) (h : Nat) (r : Request) : HState :=
   { handles := setHandle s.handles h {},
     lastId := s.lastId + 1,
@@ -29,24 +29,35 @@ def issued (s : HState) (h : Nat) (r : Request) : HState :=
       r.withOpts (match (s.handles h).searchOpts with | some o => o | none => SearchOpts.default),
       (s.handles h).controls, (s.handles h).timeout⟩] }
 
+theorem panics_mustReject (r : Request) (h : panics r = true) : mustReject r = true := by
+  cases r with
+  | extended name val => cases name <;> simp [panics] at h <;> simp [mustReject]
+  | _ => simp [panics] at h
+
 theorem step_op (s : HState) (h : Nat) (r : Request) :
-    step s (.op h r) = if mustReject r then s else issued s h r := by
+    step s (.op h r) =
+      if mustReject r then (if panics r then s else { s with handles := setHandle s.handles h {} })
+      else issued s h r := by
   by_cases hs : r.isSearch = true
   · simp [step, hs, search_not_refused r hs, searchCall, opCall, issued]
     cases (s.handles h).searchOpts <;> rfl
   · have hs' : r.isSearch = false := by simpa using hs
     have hw := withOpts_not_search r (match (s.handles h).searchOpts with | some o => o | none => SearchOpts.default) hs'
-    have hr := rejected_eq r
-    simp only [step, hs', issued, hw]
-    unfold rejected at hr
-    cases hi : issue r with
-    | send t => rw [hi] at hr; simp [← hr, opCall]
-    | errAddNoValues => rw [hi] at hr; simp [← hr]
-    | panic => rw [hi] at hr; simp [← hr]
+    cases r with
+    | add dn attrs =>
+      by_cases e : (attrs.any fun a => a.2.isEmpty) = true <;>
+        simp [step, Request.isSearch, issue, anyEmpty, mustReject, panics, e, opCall, issued, Request.withOpts]
+    | modify dn mods =>
+      by_cases e : (mods.any fun m => m.1 == .add && m.2.2.isEmpty) = true <;>
+        simp [step, Request.isSearch, issue, anyAddEmpty, mustReject, panics, e, opCall, issued, Request.withOpts]
+    | extended name val =>
+      cases name <;> simp [step, Request.isSearch, issue, mustReject, panics, opCall, issued, Request.withOpts]
+    | search => simp [Request.isSearch] at hs'
+    | _ => simp [step, Request.isSearch, issue, mustReject, panics, opCall, issued, Request.withOpts]
 
-/-! ### invariant: the handles hold exactly what is pending (as-built reading) -/
+/-! ### invariant: the handles hold exactly what is pending -/
 
-abbrev asBuilt := consumesUnlessRefused
+abbrev asBuilt := consumesUnlessPanic
 
 def Inv (pre : List HandleCall) (s : HState) : Prop := ∀ h, s.handles h = pendingHandle asBuilt h pre
 
@@ -56,7 +67,6 @@ theorem step_inv (pre : List HandleCall) (s : HState) (c : HandleCall) (hI : Inv
   have hh := hI h
   cases c with
   | withControls h' cs =>
-    have hh' := hI h'
     by_cases e : h = h'
     · subst e; simp [step, setHandle, pendingHandle, pending, setsControls, setsTimeout, setsSearchOpts, resets, hh]
     · have e' : ¬ h' = h := fun x => e x.symm
@@ -83,16 +93,19 @@ theorem step_inv (pre : List HandleCall) (s : HState) (c : HandleCall) (hI : Inv
       simp [step, setHandle, pendingHandle, pending, setsControls, setsTimeout, setsSearchOpts, resets, hh, e, e']
   | op h' r =>
     rw [step_op]
-    by_cases hr : mustReject r = true
-    · simp [hr, pendingHandle, pending, setsControls, setsTimeout, setsSearchOpts, resets, consumesUnlessRefused, hh]
-    · have hr' : mustReject r = false := by simpa using hr
+    by_cases hp : panics r = true
+    · simp [panics_mustReject r hp, hp, pendingHandle, pending, setsControls, setsTimeout, setsSearchOpts, resets,
+        consumesUnlessPanic, hh]
+    · have hp' : panics r = false := by simpa using hp
       by_cases e : h = h'
       · subst e
-        simp [hr', issued, setHandle, pendingHandle, pending, setsControls, setsTimeout, setsSearchOpts, resets,
-          consumesUnlessRefused]
+        by_cases hr : mustReject r = true <;>
+          simp [hr, hp', issued, setHandle, pendingHandle, pending, setsControls, setsTimeout, setsSearchOpts, resets,
+            consumesUnlessPanic]
       · have e' : ¬ h' = h := fun x => e x.symm
-        simp [hr', issued, setHandle, pendingHandle, pending, setsControls, setsTimeout, setsSearchOpts, resets,
-          consumesUnlessRefused, hh, e, e']
+        by_cases hr : mustReject r = true <;>
+          simp [hr, hp', issued, setHandle, pendingHandle, pending, setsControls, setsTimeout, setsSearchOpts, resets,
+            consumesUnlessPanic, hh, e, e']
 
 theorem step_wire (pre : List HandleCall) (s : HState) (c : HandleCall) (rest : List HandleCall) (hI : Inv pre s) :
     (step s c).wire ++ expectedFrom asBuilt (c :: pre) (step s c).lastId rest =
@@ -102,7 +115,7 @@ theorem step_wire (pre : List HandleCall) (s : HState) (c : HandleCall) (rest : 
     rw [step_op]
     have hh := hI h
     by_cases hr : mustReject r = true
-    · simp [hr, expectedFrom]
+    · by_cases hp : panics r = true <;> simp [hr, hp, expectedFrom]
     · have hr' : mustReject r = false := by simpa using hr
       simp [hr', issued, expectedFrom, hh, pendingHandle]
       cases pending asBuilt setsSearchOpts h pre <;> rfl
@@ -124,72 +137,53 @@ theorem run_gen (rest : List HandleCall) : ∀ (pre : List HandleCall) (s : HSta
 theorem init_inv : Inv [] HState.init := by
   intro h; simp [HState.init, pendingHandle, pending]
 
-/-- the model does exactly what the weaker law says, on every script -/
+/-- on every script, panicking calls included -/
 theorem run_asBuilt (calls : List HandleCall) :
     (runHandle calls).wire = expectedFrom asBuilt [] 0 calls ∧
     ∀ h, (runHandle calls).handles h = pendingHandle asBuilt h calls.reverse := by
   have := run_gen calls [] HState.init init_inv
   simpa [runHandle, HState.init, Inv] using this
 
-/-! ### where the two readings coincide -/
+/-! ### without panicking calls this is the law itself -/
 
-theorem clean_suffix (a b : List HandleCall) (h : NoModifierAtRefusal (a ++ b)) : NoModifierAtRefusal b := by
-  induction a with
-  | nil => simpa using h
-  | cons c a ih => exact ih h.1
+theorem resets_agree (h : Nat) (c : HandleCall) (hc : namedExop c = true) :
+    resets (fun _ => true) h c = resets asBuilt h c := by
+  cases c with
+  | op h' r =>
+    have : panics r = false := by simpa [namedExop] using hc
+    simp [resets, consumesUnlessPanic, this]
+  | _ => simp [resets]
 
-theorem pending_agree {α : Type} (set : HandleCall → Option (Nat × α))
-    (hset : ∀ h older, pendingHandle (fun _ => true) h older = {} → pending (fun _ => true) set h older = none)
-    (h : Nat) (pre : List HandleCall) (hc : NoModifierAtRefusal pre) :
+theorem pending_agree {α : Type} (set : HandleCall → Option (Nat × α)) (h : Nat) (pre : List HandleCall)
+    (hc : ∀ c ∈ pre, namedExop c = true) :
     pending (fun _ => true) set h pre = pending asBuilt set h pre := by
   induction pre with
   | nil => simp [pending]
   | cons c older ih =>
-    have ih' := ih hc.1
-    simp only [pending]
-    cases hs : set c with
-    | some p => simp [ih']
-    | none =>
-      simp only []
-      cases c with
-      | op h' r =>
-        by_cases e : h' = h
-        · by_cases hr : mustReject r = true
-          · have hz := hset h older (by have := hc.2; simp only [] at this; exact e ▸ this hr)
-            simp [resets, e, consumesUnlessRefused, hr, ← ih', hz]
-          · have hr' : mustReject r = false := by simpa using hr
-            simp [resets, e, consumesUnlessRefused, hr']
-        · simp [resets, e, ih']
-      | _ => simp [resets, ih']
+    have ih' := ih (fun x hx => hc x (by simp [hx]))
+    simp only [pending, ih', resets_agree h c (hc c (by simp))]
 
-theorem pendingHandle_agree (h : Nat) (pre : List HandleCall) (hc : NoModifierAtRefusal pre) :
+theorem pendingHandle_agree (h : Nat) (pre : List HandleCall) (hc : ∀ c ∈ pre, namedExop c = true) :
     pendingHandle (fun _ => true) h pre = pendingHandle asBuilt h pre := by
-  have a := pending_agree setsControls (fun h older e => by
-    have := congrArg Handle.controls e; simpa [pendingHandle] using this) h pre hc
-  have b := pending_agree setsTimeout (fun h older e => by
-    have := congrArg Handle.timeout e; simpa [pendingHandle] using this) h pre hc
-  have c := pending_agree setsSearchOpts (fun h older e => by
-    have := congrArg Handle.searchOpts e; simpa [pendingHandle] using this) h pre hc
-  simp [pendingHandle, a, b, c]
+  simp [pendingHandle, pending_agree _ h pre hc]
 
 theorem expectedFrom_agree (rest : List HandleCall) : ∀ (pre : List HandleCall) (n : Nat),
-    NoModifierAtRefusal (rest.reverse ++ pre) →
+    (∀ c ∈ pre, namedExop c = true) → (∀ c ∈ rest, namedExop c = true) →
     expectedFrom (fun _ => true) pre n rest = expectedFrom asBuilt pre n rest := by
   induction rest with
-  | nil => intro pre n _; simp [expectedFrom]
+  | nil => intro pre n _ _; simp [expectedFrom]
   | cons c rest ih =>
-    intro pre n hc
-    have hc' : NoModifierAtRefusal (rest.reverse ++ (c :: pre)) := by simpa using hc
-    have hpre : NoModifierAtRefusal pre := (clean_suffix _ _ hc').1
+    intro pre n hp hr
+    have hp' : ∀ x ∈ c :: pre, namedExop x = true := by
+      intro x hx
+      rcases List.mem_cons.mp hx with rfl | hx
+      · exact hr _ (by simp)
+      · exact hp x hx
+    have hr' : ∀ x ∈ rest, namedExop x = true := fun x hx => hr x (by simp [hx])
     cases c with
     | op h r =>
-      have e := pendingHandle_agree h pre hpre
-      have e1 := congrArg Handle.controls e
-      have e2 := congrArg Handle.timeout e
-      have e3 := congrArg Handle.searchOpts e
-      simp only [pendingHandle] at e1 e2 e3
-      simp only [expectedFrom, e1, e2, e3, ih _ _ hc']
-    | _ => simp only [expectedFrom, ih _ _ hc']
+      simp only [expectedFrom, pending_agree _ h pre hp, ih _ _ hp' hr']
+    | _ => simp only [expectedFrom, ih _ _ hp' hr']
 
 /-! ### every expected message is an accepted request with a positive ID -/
 
@@ -213,20 +207,5 @@ theorem expectedFrom_sound (consumes : Request → Bool) (rest : List HandleCall
         · exact ⟨by simp [mustReject_withOpts, hr'], by simp⟩
         · exact ih _ _ m hm
     | _ => simp only [expectedFrom] at hm; exact ih _ _ m hm
-
-/-! ### witnesses against the law as stated -/
-
-/-- the witness on which the law fails: controls set before an `add` that is refused with `AddNoValues`
-are still on the handle and go out with the next operation -/
-def oneShotWitness : List HandleCall :=
-  [.withControls 0 [⟨[0x31, 0x2e, 0x32], true, none⟩],
-   .op 0 (.add [0x6f, 0x3d, 0x78] [([0x63, 0x6e], [])]),
-   .op 0 (.delete [0x6f, 0x3d, 0x78])]
-
-/-- the same leak for the timeout and the search options (a refused `modify` this time) -/
-def oneShotWitness2 : List HandleCall :=
-  [.withTimeout 0 500, .withSearchOptions 0 ⟨.always, true, 7, 9⟩,
-   .op 0 (.modify [0x6f, 0x3d, 0x78] [(.add, [0x63, 0x6e], [])]),
-   .op 0 (.search [] .subtree .never 0 0 false (.prim 2 7 [0x63, 0x6e]) [])]
 
 end Ldap3V
